@@ -944,6 +944,13 @@ def evaluate(ck, eng, hists, label, first_violation_only=True, max_report=3):
             ck.count("skipped-after-hangs")
             continue
         if gout and gout[0][0] in ("HANG", "CRASH"):
+            # confirm alone, in a fresh child, with a generous watchdog: on a loaded machine the per-case watchdog of the
+            # batch run can expire on a case that is merely starved (seen once in a thorough run next to three others)
+            _rc, again, _err = eng.go([ops], tmo=90)
+            if again and again[0][1] and again[0][1][0][0] not in ("HANG", "CRASH"):
+                ck.count("unconfirmed-%s-in-batch" % gout[0][0].lower())
+                continue      # the case ran to its end when run alone: not a hang (it is not compared further in this run)
+        if gout and gout[0][0] in ("HANG", "CRASH"):
             n_s += 1
             if reported < max_report:
                 reported += 1
